@@ -659,6 +659,9 @@ end Order
 section QuicApart
 variable {κ τ ο : Type}
 
+theorem side_of_not_matches {α : Type} {s : Sess α} {p : Pkt} (h : s.matches p = false) : s.side p = .offTuple := by
+  simp [Sess.side, h]
+
 theorem quicTake_eq_none_iff (M : QuicMachine κ τ ο) (s : QuicSess τ) (x : QIn κ) (hx : x.h ≠ .tooShort) :
     quicTake M x.h x.p s = none ↔ Apart M s x := by
   unfold quicTake
@@ -708,10 +711,12 @@ theorem quicTake_eq_none_iff (M : QuicMachine κ τ ο) (s : QuicSess τ) (x : Q
           refine ⟨by simpa using hm, ?_, ?_⟩
           · intro d v e; rw [hh] at e; cases e
           · intro _ c hc' hne
+            have hm' : s.matches x.p = false := by simpa using hm
+            rw [side_of_not_matches hm'] at hc
             exact (shortPick_eq_none_iff _ _).mp hc c (List.mem_append.mpr hc') hne
     · intro ⟨ht, _, hs⟩
-      have : shortPick (M.clientCids s.st ++ M.serverCids s.st) x.p.payload = none := by
-        rw [shortPick_eq_none_iff]
+      have : shortPick (shortCandidates (M.clientCids s.st) (M.serverCids s.st) (s.side x.p)) x.p.payload = none := by
+        rw [side_of_not_matches ht, shortPick_eq_none_iff]
         intro c hc hne
         exact hs hh c (List.mem_append.mp hc) hne
       simp [this, ht]
